@@ -21,9 +21,9 @@ META = {
         'the right-hand side subtracts the basis times inputans masked by the complement of ia; C13.WEIGHTS - normal matrix and '
         'right-hand side are both formed with invvar itself (not a 0/1 mask); C13.YFIT-ALL - the basis and the fitted model are evaluated at every abscissa, masked ones included, and the normal matrix is solved as formed; C13.GRID - TraceSet.xy without xpos builds nx = '
         'int(xmax - xmin + 1) positions in unit steps offset by xmin; C13.BASIS-FRESH - func_fit scales the basis array in place, so '
-        'every basis function returns a freshly allocated array (no memo decorator, no module-level cache). C13.FIT-ONCE - the fit/reject loop of TraceSet.__init__ holds on entry for maxiter = 0 (loop test folded on its initial values); C13.FLOAT-BASIS - the Legendre basis array is floating for every abscissa dtype. NOT decided: that the '
+        'every basis function returns a freshly allocated array (no memo decorator, no module-level cache). C13.FIT-ONCE - the fit/reject loop of TraceSet.__init__ holds on entry for maxiter = 0 (loop test folded on its initial values); C13.FLOAT-BASIS - the Legendre basis array is floating for every abscissa dtype. C13.FLOAT-OUT - the coefficient, fit and evaluation arrays of a TraceSet are not allocated in the dtype of the pixel positions (func_fit itself asserts that its arrays share the dtype of x, and is left alone); NOT decided: that the '
         'bases equal the textbook polynomials (delegated to scipy; numerical), least-squares optimality, exact recovery.'),
-    'floors': {'C13.FIT-ONCE': 1, 'C13.FLOAT-BASIS': 1, 'C13.REGISTRY': 3, 'C13.XNORM': 4, 'C13.FIXED-LAST': 3, 'C13.WEIGHTS': 3, 'C13.GRID': 2, 'C13.BASIS-FRESH': 4, 'C13.YFIT-ALL': 3},
+    'floors': {'C13.FLOAT-OUT': 2, 'C13.FIT-ONCE': 1, 'C13.FLOAT-BASIS': 1, 'C13.REGISTRY': 3, 'C13.XNORM': 4, 'C13.FIXED-LAST': 3, 'C13.WEIGHTS': 3, 'C13.GRID': 2, 'C13.BASIS-FRESH': 4, 'C13.YFIT-ALL': 3},
 }
 
 TRACE = 'pydl/pydlutils/trace.py'
@@ -295,6 +295,9 @@ def check_fit_once(ctx, repo):
 
 
 def run(ctx):
+    from .floatlib import check_float_alloc
+    check_float_alloc(ctx, ctx.repo, 'C13.FLOAT-OUT', [(TRACE, 'TraceSet.__init__'), (TRACE, 'TraceSet.xy')],
+                      'the coefficients and fitted values of traces given at integer pixel positions are truncated')
     check_fit_once(ctx, ctx.repo)
     resolved = check_registry(ctx, ctx.repo)
     check_xnorm(ctx, ctx.repo)
